@@ -262,6 +262,17 @@ def run_impl(spec, chunks, progs, peer=DEFAULT_PEER, structured=None):
                     structured.append({"end": "error", "error": type(failed).__name__, "phase": "body"})
                 break
             rec_req["should_close"] = req.should_close()
+            if rec_req["should_close"]:
+                # the connection ends here: read the rest of the body like an application would,
+                # so that a malformed rest / the trailers are observed
+                try:
+                    while req.body.read(8192):
+                        pass
+                except Exception as e:
+                    out += [200, err_code(e)]
+                    if structured is not None:
+                        structured.append({"end": "error", "error": type(e).__name__, "phase": "drain"})
+                    break
             rb = RecordingBody(req.body, req, parser, it)
             req.body = rb
             prev = (req, rb)
